@@ -20,6 +20,7 @@ from pulser.backend import EmulationConfig, Observable, Results, State
 from emu_base import DEVICE_COUNT, SequenceData, get_max_rss
 from emu_base.math.brents_root_finding import BrentsRootFinder
 from emu_base.utils import deallocate_tensor, observable_compat_kwargs
+from emu_base import _verif
 
 from emu_mps.hamiltonian import make_H, update_H
 from emu_mps.mpo import MPO
@@ -170,6 +171,20 @@ class MPSBackendImpl:
                 f"but only {DEVICE_COUNT if DEVICE_COUNT > 0 else 'cpu'} available"
             )
         self.resolved_num_gpus = requested_num_gpus
+        if _verif.enabled():
+            _verif.emit(
+                "mps_new",
+                cls=type(self).__name__,
+                n=self.qubit_count,
+                nsteps=self.timestep_count,
+                target_times=self.target_times,
+                perm=self.qubit_permutation,
+                qubit_ids=[str(q) for q in pulser_data.qubit_ids],
+                atom_order=[str(q) for q in self.results.atom_order],
+                dim=self.dim,
+                htype=self.hamiltonian_type,
+                has_lindblad=self.has_lindblad_noise,
+            )
 
     def _get_interaction_matrix(self) -> torch.Tensor:
         """Get the interaction matrix for the current time step, applying qubit
@@ -189,6 +204,14 @@ class MPSBackendImpl:
                 :, self.well_prepared_qubits_filter
             ]
 
+        if _verif.enabled():
+            _verif.emit(
+                "mps_imat",
+                tq=0.5 * (self.current_time + self.target_time),
+                cur=self.current_time,
+                tgt=self.target_time,
+                matrix=matrix,
+            )
         return matrix
 
     def __getstate__(self) -> dict:
@@ -296,6 +319,12 @@ class MPSBackendImpl:
             phi=self.phi[self._timestep_index, :],
             noise=self.lindblad_noise,
         )
+        if _verif.enabled():
+            _verif.emit(
+                "mps_update_h",
+                ts=self._timestep_index,
+                noisy=True,
+            )
 
     def update_H_no_noise(self) -> None:
         update_H(
@@ -305,6 +334,12 @@ class MPSBackendImpl:
             phi=self.phi[self._timestep_index, :],
             noise=torch.zeros(self.dim, self.dim, dtype=dtype),  # no noise
         )
+        if _verif.enabled():
+            _verif.emit(
+                "mps_update_h",
+                ts=self._timestep_index,
+                noisy=False,
+            )
 
     def init_baths(self) -> None:
         self.left_baths = [
@@ -326,6 +361,21 @@ class MPSBackendImpl:
         self.fill_results()  # at t == 0 for pulser compatibility
         self.update_H()
         self.init_baths()
+        if _verif.enabled():
+            _verif.emit(
+                "mps_init",
+                n=self.qubit_count,
+                dark=(
+                    None
+                    if self.well_prepared_qubits_filter is None
+                    else torch.logical_not(self.well_prepared_qubits_filter)
+                ),
+                center=self.state.orthogonality_center,
+                nl=len(self.left_baths),
+                nr=len(self.right_baths),
+                cur=self.current_time,
+                tgt=self.target_time,
+            )
 
     def is_finished(self) -> bool:
         return self._timestep_index >= self.timestep_count
@@ -356,6 +406,15 @@ class MPSBackendImpl:
                 config=self.config,
                 is_hermitian=not self.has_lindblad_noise,
             )
+            if _verif.enabled():
+                _verif.emit(
+                    "mps_evolve",
+                    sites=[index],
+                    dt=dt,
+                    ocr=None,
+                    center=self.state.orthogonality_center,
+                    herm=not self.has_lindblad_noise,
+                )
         else:
             assert orth_center_right is not None
             l, r = indices
@@ -376,6 +435,30 @@ class MPSBackendImpl:
             )
 
             self.state.orthogonality_center = r if orth_center_right else l
+            if _verif.enabled():
+                _verif.emit(
+                    "mps_evolve",
+                    sites=[l, r],
+                    dt=dt,
+                    ocr=orth_center_right,
+                    center=self.state.orthogonality_center,
+                    herm=not self.has_lindblad_noise,
+                )
+
+    def _verif_progress(self) -> None:
+        if _verif.enabled():
+            _verif.emit(
+                "mps_progress",
+                ts=self._timestep_index,
+                sw=self._sweep_index,
+                dir=self._swipe_direction,
+                nl=len(self.left_baths),
+                nr=len(self.right_baths),
+                center=self.state.orthogonality_center,
+                cur=self.current_time,
+                tgt=self.target_time,
+                finished=self.is_finished(),
+            )
 
     def progress(self) -> None:
         """
@@ -401,6 +484,7 @@ class MPSBackendImpl:
                 self._evolve(0, 1, dt=delta_time, orth_center_right=False)
 
             self.sweep_complete()
+            self._verif_progress()
             self.save_simulation()
             return
 
@@ -409,6 +493,7 @@ class MPSBackendImpl:
         else:
             self._right_to_left_update_tdvp(delta_time=delta_time)
 
+        self._verif_progress()
         self.save_simulation()
 
     def _left_to_right_update_tdvp(self, delta_time: float) -> None:
@@ -468,6 +553,8 @@ class MPSBackendImpl:
 
     def sweep_complete(self) -> None:
         self.current_time = self.target_time
+        if _verif.enabled():
+            _verif.emit("mps_sweep", kind="tdvp", branch="complete", cur=self.current_time)
         self.timestep_complete()
 
     def timestep_complete(self) -> None:
@@ -494,6 +581,15 @@ class MPSBackendImpl:
             self.update_H()
             self.init_baths()
 
+        if _verif.enabled():
+            _verif.emit(
+                "mps_step_done",
+                ts=self._timestep_index,
+                cur=self.current_time,
+                tgt=self.target_time,
+                rebuilt=not is_the_same_matrix,
+                finished=self.is_finished(),
+            )
         self.statistics.data.append(time.time() - self.time)
         self.statistics(
             self.config,
@@ -505,6 +601,8 @@ class MPSBackendImpl:
         self.time = time.time()
 
     def save_simulation(self) -> None:
+        if _verif.force_autosave():
+            self.last_save_time = float("-inf")
         if self.last_save_time > time.time() - self.config.autosave_dt:
             return
 
@@ -525,6 +623,17 @@ class MPSBackendImpl:
         logging.getLogger("emulators").debug(
             f"Saved simulation state in file {self.autosave_file} ({autosave_filesize}MB)"
         )
+        if _verif.enabled():
+            _verif.emit(
+                "save",
+                file=str(self.autosave_file),
+                ts=self._timestep_index,
+                sw=self._sweep_index,
+                dir=self._swipe_direction,
+                cur=self.current_time,
+                tgt=self.target_time,
+            )
+        _verif.after_save()
 
     def _is_evaluation_time(
         self,
@@ -561,8 +670,22 @@ class MPSBackendImpl:
             if self._is_evaluation_time(callback, fractional_time)
         ]
         if not callbacks_for_current_time_step:
+            if _verif.enabled():
+                _verif.emit(
+                    "mps_fill",
+                    t=fractional_time,
+                    cur=self.current_time,
+                    ts=self._timestep_index,
+                    due=[],
+                    before=_verif.result_times(self.results),
+                    after=_verif.result_times(self.results),
+                    padded=False,
+                    norm=float(self.state.norm()),
+                    hnoise=None,
+                )
             return
 
+        _verif_before = _verif.result_times(self.results) if _verif.enabled() else {}
         if self.well_prepared_qubits_filter is None:
             state = normalized_state
             hamiltonian = self.hamiltonian
@@ -596,8 +719,23 @@ class MPSBackendImpl:
                 hamiltonian,
                 self.results,
             )
+        if _verif.enabled():
+            _verif.emit(
+                "mps_fill",
+                t=fractional_time,
+                cur=self.current_time,
+                ts=self._timestep_index,
+                due=[c.tag for c in callbacks_for_current_time_step],
+                before=_verif_before,
+                after=_verif.result_times(self.results),
+                padded=self.well_prepared_qubits_filter is not None,
+                norm=float(self.state.norm()),
+                hnoise=None,
+            )
 
     def permute_results(self, results: Results, permute: bool) -> Results:
+        if _verif.enabled():
+            _verif.emit("mps_permute", permute=bool(permute), perm=self.qubit_permutation)
         if permute:
             inv_perm = optimat.inv_permutation(self.qubit_permutation)
             permute_bitstrings(results, inv_perm)
@@ -668,6 +806,13 @@ class NoisyMPSBackendImpl(MPSBackendImpl):
     def set_jump_threshold(self, bound: float) -> None:
         self.jump_threshold = random.uniform(0.0, bound)
         self.norm_gap_before_jump = self.state.norm().item() ** 2 - self.jump_threshold
+        if _verif.enabled():
+            _verif.emit(
+                "mps_thr",
+                bound=bound,
+                thr=self.jump_threshold,
+                gap=self.norm_gap_before_jump,
+            )
 
     def init(self) -> None:
         self.init_lindblad_noise()
@@ -693,7 +838,37 @@ class NoisyMPSBackendImpl(MPSBackendImpl):
                     epsilon=1,
                 )
                 self.target_time = self.root_finder.get_next_abscissa()
+                if _verif.enabled():
+                    _verif.emit(
+                        "mps_sweep",
+                        kind="noisy",
+                        branch="search_start",
+                        prev=previous_time,
+                        cur=self.current_time,
+                        prev_gap=previous_norm_gap_before_jump,
+                        gap=self.norm_gap_before_jump,
+                        thr=self.jump_threshold,
+                        tgt=self.target_time,
+                        ts=self._timestep_index,
+                        a=self.root_finder.a,
+                        b=self.root_finder.b,
+                    )
             else:
+                if _verif.enabled():
+                    _verif.emit(
+                        "mps_sweep",
+                        kind="noisy",
+                        branch="complete",
+                        prev=previous_time,
+                        cur=self.current_time,
+                        prev_gap=previous_norm_gap_before_jump,
+                        gap=self.norm_gap_before_jump,
+                        thr=self.jump_threshold,
+                        tgt=self.target_time,
+                        ts=self._timestep_index,
+                        a=None,
+                        b=None,
+                    )
                 self.timestep_complete()
 
             return
@@ -702,11 +877,44 @@ class NoisyMPSBackendImpl(MPSBackendImpl):
         self.root_finder.provide_ordinate(self.current_time, self.norm_gap_before_jump)
 
         if self.root_finder.is_converged(tolerance=1):
+            _verif_rf = self.root_finder
             self.do_random_quantum_jump()
             self.target_time = self.target_times[self._timestep_index + 1]
             self.root_finder = None
+            if _verif.enabled():
+                _verif.emit(
+                    "mps_sweep",
+                    kind="noisy",
+                    branch="jump",
+                    prev=previous_time,
+                    cur=self.current_time,
+                    prev_gap=previous_norm_gap_before_jump,
+                    gap=self.norm_gap_before_jump,
+                    thr=self.jump_threshold,
+                    tgt=self.target_time,
+                    ts=self._timestep_index,
+                    a=_verif_rf.a,
+                    b=_verif_rf.b,
+                    fa=_verif_rf.fa,
+                    fb=_verif_rf.fb,
+                )
         else:
             self.target_time = self.root_finder.get_next_abscissa()
+            if _verif.enabled():
+                _verif.emit(
+                    "mps_sweep",
+                    kind="noisy",
+                    branch="search_step",
+                    prev=previous_time,
+                    cur=self.current_time,
+                    prev_gap=previous_norm_gap_before_jump,
+                    gap=self.norm_gap_before_jump,
+                    thr=self.jump_threshold,
+                    tgt=self.target_time,
+                    ts=self._timestep_index,
+                    a=self.root_finder.a,
+                    b=self.root_finder.b,
+                )
 
     def do_random_quantum_jump(self) -> None:
         jump_operator_weights = self.state.expect_batch(self.aggregated_lindblad_ops).real
@@ -719,6 +927,18 @@ class NoisyMPSBackendImpl(MPSBackendImpl):
             weights=jump_operator_weights.view(-1).tolist(),
         )[0]
 
+        if _verif.enabled():
+            _verif.emit(
+                "mps_jump",
+                t=self.current_time,
+                ts=self._timestep_index,
+                qubit=jumped_qubit_index,
+                op=next(
+                    i for i, op in enumerate(self.lindblad_ops) if op is jump_operator
+                ),
+                weights=jump_operator_weights,
+                norm2=self.state.norm().item() ** 2,
+            )
         self.state.apply(jumped_qubit_index, jump_operator)
         self.state.orthogonalize(0)
         self.state *= 1 / self.state.norm()
@@ -782,6 +1002,15 @@ class DMRGBackendImpl(MPSBackendImpl):
         self.state.factors[idx], self.state.factors[idx + 1] = new_L, new_R
         self.state.orthogonality_center = idx + 1 if orth_center_right else idx
         self.current_energy = energy
+        if _verif.enabled():
+            _verif.emit(
+                "dmrg_min",
+                idx=idx,
+                dir=self._swipe_direction,
+                energy=energy,
+                ts=self._timestep_index,
+                center=self.state.orthogonality_center,
+            )
 
         # updating baths and orthogonality center
         if self._swipe_direction == SwipeDirection.LEFT_TO_RIGHT:
@@ -791,6 +1020,7 @@ class DMRGBackendImpl(MPSBackendImpl):
         else:
             raise Exception("Did not expect this")
 
+        self._verif_progress()
         self.save_simulation()
 
     def _left_to_right_update(self, idx: int) -> None:
@@ -828,6 +1058,17 @@ class DMRGBackendImpl(MPSBackendImpl):
 
     def sweep_complete(self) -> None:
         # This marks the end of one full sweep: checking convergence
+        if _verif.enabled():
+            _verif.emit(
+                "dmrg_sweep",
+                count=self.sweep_count,
+                prev=self.previous_energy,
+                energy=self.current_energy,
+                converged=self.convergence_check(self.energy_tolerance),
+                ts=self._timestep_index,
+                tol=self.energy_tolerance,
+                max_sweeps=self.max_sweeps,
+            )
         if self.convergence_check(self.energy_tolerance):
             self.current_time = self.target_time
             self.timestep_complete()
@@ -845,6 +1086,13 @@ class DMRGBackendImpl(MPSBackendImpl):
 
 
 def create_impl(data: SequenceData, config: MPSConfig) -> MPSBackendImpl:
+    if _verif.enabled():
+        _verif.emit(
+            "create_impl",
+            n_lindblad=len(data.lindblad_ops),
+            solver=config.solver,
+            noise_types=list(config.noise_model.noise_types),
+        )
 
     if data.lindblad_ops:
         return NoisyMPSBackendImpl(config, data)
